@@ -154,7 +154,32 @@ fn run_c03(b: &[u8], t: Tier) -> Outcome {
     let nt = r.classes.stale_possible > 0;
     outcome(r, nt)
 }
+/// decoder 2: an eighth of C04's cases each go to the expert-node histories of C14 and to the
+/// per-key operators of C16 (which are built on expert nodes): C04's statement covers expert nodes
+/// mutated from a child's function, and any panic there is C04's violation
+fn run_c04_expert(b: &[u8], t: Tier) -> Option<Outcome> {
+    if crate::choice::dv() < 2 || b.len() < 2 {
+        return None;
+    }
+    let mut o = match b[0] % 8 {
+        7 => crate::c14::run_c14(&b[1..], t),
+        6 => crate::maps::run_c16_case(&b[1..], t),
+        _ => return None,
+    };
+    o.failures = o
+        .failures
+        .into_iter()
+        .filter(|f| f.clause == "panic")
+        .map(|f| crate::model::Failure { prop: "C04", clause: "panic", msg: format!("[{}] {}", f.prop, f.msg) })
+        .collect();
+    o.classes.retain(|(k, _)| *k == "stabilises");
+    o.classes.push(("cases_on_expert_nodes_or_per_key_operators", 1));
+    Some(o)
+}
 fn run_c04(b: &[u8], t: Tier) -> Outcome {
+    if let Some(o) = run_c04_expert(b, t) {
+        return o;
+    }
     let r = run_case(&prof_c04(t), b, None);
     let c = &r.classes;
     let nt = c.stabilises >= 2 && (c.bind_reruns > 0 || c.obs_removed > 0) && c.handle_dropped_while_necessary > 0;
